@@ -5,6 +5,7 @@ import (
 	"os"
 	"path/filepath"
 	"strings"
+	"time"
 
 	distiller "github.com/markusmobius/go-domdistiller"
 	"golang.org/x/net/html"
@@ -14,7 +15,7 @@ import (
 
 func init() {
 	register(&Prop{
-		ID: "C01",
+		ID:   "C01",
 		Rule: "hostile workloads over all entry points: tag-soup trees (random tags/attributes from the vocabulary every rule of the distiller reads) with the document, random attached elements and their detached clones as roots; every/sampled element of G-article pages as attached and detached root; 24 kinds of hand-built roots (inline roots with text, javascript: anchor roots, nodes without DataAtom, text/comment/doctype/empty-document roots, ...); structure-aware byte mutations of well-formed pages (truncation, dropped end tags, NUL, invalid UTF-8, BOMs, misnested table/select/svg/template fragments, huge attributes) through ApplyForReader and ApplyForFile (also missing path, directory, empty file); hostile pager documents; size stress (<=2000 nesting levels, <=1 MB); all with options drawn from {nil, LogFlags 0..31, 41 plain and odd page URLs or nil, SkipPagination, both algorithms and out-of-range algorithm values}. Oracle: no panic, no process death, CPU per case <= 60 s, and err != nil or Result.Node is a non-nil <div> element. Non-trivial = a call that returned a result (not an error); distinct = distinct (workload kind, root kind/tag, option shape).",
 		Assumptions: []string{
 			"termination is restated as bounded progress: inputs are <= ~1 MB and <= 2000 nesting levels and a case that burns 60 s of CPU is reported as non-terminating (the slowest conforming case measured takes < 4 s)",
@@ -223,6 +224,49 @@ func runC01(c *Ctx, idx int) {
 	case 7:
 		sub := idx / 8
 		switch {
+		case sub%64 == 3: // insertion-mode stress of the HTML parser, by every route that parses text
+			c.Inc("parser_stress_cases")
+			c.CPUBound(10 * time.Second) // inputs of < 1 kB
+			page := func(body string) string {
+				return "<html><head><title>w1q w2q</title></head><body><p>w3q w4q w5q w6q w7q w8q w9q w10q w11q w12q.</p>" + body + "<p>w13q w14q w15q w16q w17q w18q w19q w20q w21q w22q.</p></body></html>"
+			}
+			route := (sub / 64) % 6
+			reps := 1
+			if sub/64 >= 6 {
+				reps = []int{300, 300, 60, 60, 60, 60}[route] // random fragments; the first five cases use one fixed fragment
+			}
+			for k := 0; k < reps; k++ {
+				frag := "<table><tbody><svg><tr><foreignObject><select></select></tbody>"
+				if sub/64 >= 6 {
+					frag = parserStress(r)
+				}
+				esc := html.EscapeString(frag)
+				c.Inc("parser_stress_fragments")
+				ok := true
+				switch route {
+				case 0: // bytes
+					ok = c.c01Bytes("parser-stress:bytes", []string{frag, page(frag)}[k%2], r.opts(), false)
+				case 1: // file
+					ok = c.c01Bytes("parser-stress:file", page(frag), r.opts(), true)
+				case 2: // healthy tree, markup of a fallback image in <noscript> inside a figure (parsed by the distiller)
+					doc := parseHTML(page(`<figure><noscript>` + frag + `</noscript><figcaption>w30q w31q</figcaption></figure>`))
+					ok = c.c01Tree("parser-stress:figure-noscript", doc, "document", r.opts())
+				case 3: // healthy tree, escaped markup as caption text
+					doc := parseHTML(page(`<figure><img src="a.png"><figcaption>w30q w31q ` + esc + `</figcaption></figure>`))
+					ok = c.c01Tree("parser-stress:caption-text", doc, "document", r.opts())
+				case 4: // healthy tree, escaped markup as text of a paragraph / a table cell
+					doc := parseHTML(page(`<p>w30q w31q w32q w33q w34q w35q w36q ` + esc + ` w37q w38q.</p><table><tr><th>w40q</th><th>w41q</th></tr><tr><td>` + esc + `</td><td>w42q</td></tr><tr><td>w43q</td><td>w44q</td></tr></table>`))
+					ok = c.c01Tree("parser-stress:text", doc, "document", r.opts())
+				case 5: // healthy tree, escaped markup as text of foreign elements whose names are raw-text elements in HTML
+					el := []string{"xmp", "noembed", "noframes", "iframe", "plaintext", "style", "script", "noscript", "textarea", "title"}[k%10]
+					ns := []string{"math", "svg"}[(k/10)%2]
+					doc := parseHTML(page(`<ul><li>w30q w31q w32q w33q w34q w35q w36q <` + ns + `><` + el + `>` + esc + `</` + el + `></` + ns + `> w37q w38q w39q w40q.</li><li>w41q w42q w43q w44q w45q w46q.</li></ul>`))
+					ok = c.c01Tree("parser-stress:foreign-rawtext", doc, "document", r.opts())
+				}
+				if !ok {
+					return
+				}
+			}
 		case sub%8 == 0: // size stress
 			src, what := bigInput(sub/8, r)
 			c.Inc("big_inputs")
